@@ -2,9 +2,11 @@
 //
 // spec/Ws.tla      property level: what the statement demands of the observable events
 // spec/WsImpl.tla  implementation level, shaped like websocket.go; TLC checks that it refines Ws
-//                  (invariant Refines), WriteExclusion, CloseOnce, StopCancels and the liveness
-//                  properties; with the Fix* constants FALSE it is the pinned tree and TLC produces
-//                  the counterexamples of the known findings
+//
+//	(invariant Refines), WriteExclusion, CloseOnce, StopCancels and the liveness
+//	properties; with the Fix* constants FALSE it is the pinned tree and TLC produces
+//	the counterexamples of the known findings
+//
 // spec/WsTrace.tla trace validation of recorded sessions against Ws
 //
 // This driver (A) replays TLC-generated scripts - every quiescent state of the Sync graph of WsImpl,
@@ -698,9 +700,16 @@ func specialScenarios(thorough bool) []*Scenario {
 			&Scenario{ID: "suberr-then-panic-" + p, Mode: "special", Cfg: Cfg{Proto: p, InitFn: "none"}, End: "closef", Steps: []Step{init,
 				{Op: "send", M: "start", ID: "1", Inst: "1x1", Kind: "ok", Sync: true},
 				{Op: "src", Inst: "1x1", M: "sp", Sync: true}}},
-			&Scenario{ID: "restart-hammer-" + p, Mode: "hammer", Cfg: Cfg{Proto: p, InitFn: "none", KA: 1, PO: 1}, End: "abort", Iters: map[bool]int{false: 150, true: 1500}[thorough],
-				Steps: []Step{init, {Op: "hammer", ID: "1"}}},
 		)
+		// (150 rounds per session: the Ws state of a trace grows with the number of operation instances)
+		nh := 1
+		if thorough {
+			nh = 6
+		}
+		for k := 0; k < nh; k++ {
+			out = append(out, &Scenario{ID: fmt.Sprintf("restart-hammer-%s-%d", p, k), Mode: "hammer", Cfg: Cfg{Proto: p, InitFn: "none", KA: 1, PO: 1}, End: "abort", Iters: 150,
+				Steps: []Step{init, {Op: "hammer", ID: "1"}}})
+		}
 	}
 	out = append(out, &Scenario{ID: "init-bad-payload-gws-timeout", Mode: "special", Cfg: Cfg{Proto: "gws", InitFn: "accept", InitTimeout: 3000}, End: "abort",
 		Steps: []Step{{Op: "send", M: "initbad", Sync: true}}})
